@@ -14,9 +14,10 @@ EXPLANATION = (
     "message is the Encrypted payload of subject(self), the rebuilt node is node-constructor(decoded, the node's own assertions). "
     "C08.4: no accept exit in the arms for an already encrypted / elided envelope and the node arm's accept is dominated by "
     "!is_encrypted(subject). C08.5: encrypt = encrypt_subject(wrap(self)), decrypt = unwrap_envelope(decrypt_subject(self)?). "
-    "C08.6: the Encrypt action reaches every position - the obscuring descent rebuilds each case over rec(child, target, mode, action) with the action unchanged and has no exit that is neither self, a same-case rebuild nor an action sink. Does not decide that a wrong key or tampered ciphertext/nonce/tag/AAD makes the AEAD fail (dependency).")
+    "C08.6: the Encrypt action reaches every position - the obscuring descent rebuilds each case over rec(child, target, mode, action) with the action unchanged and has no exit that is neither self, a same-case rebuild nor an action sink. Does not decide that a wrong key or tampered ciphertext/nonce/tag/AAD makes the AEAD fail (dependency)."
+    " C08.4 also: the node arm refuses exactly an already encrypted subject (table over the cases of the subject).")
 TRUSTED = ['SymmetricKey::decrypt authenticates ciphertext, nonce, tag and AAD', 'EncryptedMessage::opt_digest reads the digest stored as AAD']
-FLOORS = {'C08.1': 6, 'C08.2': 2, 'C08.4': 2, 'C08.5': 2}
+FLOORS = {'C08.1': 6, 'C08.2': 2, 'C08.4': 3, 'C08.5': 2}
 
 
 def check(ctx):
@@ -171,6 +172,25 @@ def check(ctx):
                     ctx.ok('C08.4', ctx.site(e, node_sinks[0]), 'node arm encrypts only on the false edge of is_encrypted(subject); ' + info)
                 else:
                     ctx.fail('C08.4', ctx.site(e, node_sinks[0]), 'an already encrypted subject can be encrypted again: ' + info, key='C08.4|node')
+            # node arm, per case of the subject: refused exactly for an already encrypted subject; every other subject case (leaf,
+            # known value, wrapped, assertion, node, compressed, an elided placeholder) reaches the encrypt sink: the round trip holds for them
+            from .. import accessors
+            if node_sinks:
+                bad_rows = []
+                for vname in variants:
+                    env_s, n_atoms = accessors.case_env(F, e, etb, vname, variants, target=lambda x: obscure.child_kind(x) == 'Node.subject')
+                    env_s = dict(env_s)
+                    env_s[strip_sites(sw[0][1])] = variants.index('Node')
+                    R = reach_under(e, etb, env_s)
+                    reached = any(x in R for x in node_sinks)
+                    want = vname != 'Encrypted'
+                    if reached != want:
+                        bad_rows.append((vname, reached))
+                if bad_rows:
+                    ctx.fail('C08.4', ctx.site(e, node_sinks[0]), 'node arm, by case of the subject: encrypt sink reachability is wrong for %s (expected: refused only for an already Encrypted subject)' % bad_rows,
+                             key='C08.4|node_table')
+                else:
+                    ctx.ok('C08.4', ctx.site(e, node_sinks[0]), 'node arm: the subject is encrypted for every case but Encrypted, which is refused (%d subject cases)' % len(variants))
     # ---- C08.5 compositions
     d = F.method1('Envelope', 'decrypt')
     if d is None:
